@@ -10,7 +10,7 @@ use std::panic::AssertUnwindSafe;
 use std::process::{Child, ChildStdin, ChildStdout, Command, Stdio};
 use std::sync::OnceLock;
 use surf_n_term::decoder::{verif, Decoder, TTYCommandDecoder, TTYEventDecoder, Utf8Decoder};
-use surf_n_term::{Key, KeyMod, KeyName, TerminalColor, TerminalCommand, TerminalEvent};
+use surf_n_term::{FaceModify, Key, KeyMod, KeyName, TerminalColor, TerminalCommand, TerminalEvent, UnderlineStyle, RGBA};
 
 // ------------------------------------------------------------------ running the implementation (child side)
 
@@ -84,6 +84,25 @@ fn enc_key(k: &Key, debug: String) -> Value {
     json!({"key": [lit, kind, arg, mod_bits(k.mode)]})
 }
 
+fn enc_rgb(c: &Option<RGBA>) -> Value {
+    match c {
+        None => Value::Null,
+        Some(c) => json!([c.red(), c.green(), c.blue()]),
+    }
+}
+
+fn enc_facem(f: &FaceModify) -> Value {
+    let ul = f.underline.map(|u| match u {
+        UnderlineStyle::None => 0,
+        UnderlineStyle::Straight => 1,
+        UnderlineStyle::Double => 2,
+        UnderlineStyle::Curly => 3,
+        UnderlineStyle::Dotted => 4,
+        UnderlineStyle::Dashed => 5,
+    });
+    json!({"facem": [f.reset, enc_rgb(&f.fg), enc_rgb(&f.bg), enc_rgb(&f.underline_color), ul, f.bold, f.italic, f.blink, f.strike]})
+}
+
 fn enc_event(e: &TerminalEvent) -> Value {
     match e {
         TerminalEvent::Raw(b) => json!({"raw": jbytes(b)}),
@@ -101,8 +120,8 @@ fn enc_event(e: &TerminalEvent) -> Value {
             TerminalColor::Background => json!({"color": [1, 0]}),
             TerminalColor::Palette(i) => json!({"color": [2, i]}),
         },
-        TerminalEvent::FaceGet(_) => json!("face"),
-        TerminalEvent::Command(TerminalCommand::FaceModify(_)) => json!("face"),
+        TerminalEvent::FaceGet(f) => json!({"faceget": [enc_rgb(&f.fg), enc_rgb(&f.bg)]}),
+        TerminalEvent::Command(TerminalCommand::FaceModify(f)) => enc_facem(f),
         TerminalEvent::Paste(s) => json!({"paste": jbytes(s.as_bytes())}),
         _ => json!("other"),
     }
@@ -112,7 +131,7 @@ fn enc_command(c: &TerminalCommand) -> Value {
     match c {
         TerminalCommand::Raw(b) => json!({"raw": jbytes(b)}),
         TerminalCommand::Char(c) => json!({"char": *c as u32}),
-        TerminalCommand::FaceModify(_) => json!("face"),
+        TerminalCommand::FaceModify(f) => enc_facem(f),
         _ => json!("other"),
     }
 }
@@ -333,10 +352,20 @@ fn cn_v(v: &Value) -> String {
     v.as_u64().map(|n| n.to_string()).unwrap_or_else(|| "0".into())
 }
 
+fn crgb(v: &Value) -> String {
+    match v.as_array() {
+        Some(a) if a.len() == 3 => format!("(Some ({}, {}, {}))", cn_v(&a[0]), cn_v(&a[1]), cn_v(&a[2])),
+        _ => "None".into(),
+    }
+}
+
+fn cobool(v: &Value) -> String {
+    copt(v.as_bool().map(|b| cbool(b).to_string()))
+}
+
 fn chev(v: &Value) -> String {
     if let Some(s) = v.as_str() {
         return match s {
-            "face" => "HFace".into(),
             "termcap" => "HTermcap".into(),
             _ => "HOther".into(),
         };
@@ -357,6 +386,19 @@ fn chev(v: &Value) -> String {
         "kitty" => format!("HKitty {} {} {}", at(0), copt(a[1].as_u64().map(|n| n.to_string())), cbool(a[2].as_bool().unwrap_or(false))),
         "color" => format!("HColor {} {}", at(0), at(1)),
         "paste" => format!("HPaste {}", cbytes(&vbytes(a))),
+        "faceget" => format!("HFaceG {} {}", crgb(&a[0]), crgb(&a[1])),
+        "facem" => format!(
+            "HFaceM {} {} {} {} {} {} {} {} {}",
+            cbool(a[0].as_bool().unwrap_or(false)),
+            crgb(&a[1]),
+            crgb(&a[2]),
+            crgb(&a[3]),
+            copt(a[4].as_u64().map(|n| n.to_string())),
+            cobool(&a[5]),
+            cobool(&a[6]),
+            cobool(&a[7]),
+            cobool(&a[8])
+        ),
         _ => "HOther".into(),
     }
 }
@@ -466,6 +508,51 @@ fn digits(rng: &mut Rng) -> String {
         13 => format!("{}", rng.below(70000)),
         14 => format!("{}", rng.next()),
         _ => format!("{}", 1 + rng.below(99)),
+    }
+}
+
+/// boundary values per field
+const KEY_CODES: [u64; 30] = [
+    0, 1, 9, 13, 27, 32, 97, 127, 128, 55295, 55296, 57343, 57344, 57375, 57376, 57377, 57397, 57398, 57399, 63743, 63744, 65535, 65536,
+    1114111, 1114112, 4294967295, 4294967296, 4294967297, 18446744073709551615, 57380,
+];
+const KEY_MODS: [u64; 16] = [0, 1, 2, 3, 5, 9, 256, 257, 511, 512, 513, 1025, 4294967296, 4294967297, 4294967298, 18446744073709551615];
+const MOUSE_CODES: [u64; 22] = [0, 1, 2, 3, 4, 8, 16, 28, 31, 32, 35, 63, 64, 65, 66, 67, 92, 95, 128, 255, 4294967296, 18446744073709551615];
+const COORDS: [u64; 10] = [0, 1, 2, 80, 255, 256, 65535, 65536, 4294967296, 18446744073709551615];
+const PALETTE: [u64; 20] = [0, 1, 7, 8, 15, 16, 17, 21, 51, 52, 196, 230, 231, 232, 233, 254, 255, 256, 257, 4294967312];
+const CHANNELS: [u64; 10] = [0, 1, 127, 128, 254, 255, 256, 257, 300, 65536];
+const SGR_CODES: [u64; 40] = [
+    0, 1, 2, 3, 4, 5, 9, 21, 22, 23, 24, 25, 29, 30, 37, 38, 39, 40, 47, 48, 49, 58, 59, 89, 90, 97, 98, 99, 100, 107, 108, 29, 31, 41, 91, 101, 256,
+    4294967297, 18446744073709551615, 33,
+];
+
+fn pk(rng: &mut Rng, xs: &[u64]) -> String {
+    xs[rng.below(xs.len() as u64) as usize].to_string()
+}
+
+/// templates that pin the fields the decoders do arithmetic / table lookups on
+fn boundary_piece(rng: &mut Rng, which: u64) -> (Vec<u8>, &'static str) {
+    let sep = if rng.chance(1, 2) { ';' } else { ':' };
+    let sgr_colour = |rng: &mut Rng| -> String {
+        let role = rng.pick(&[38u32, 48, 58]).to_string();
+        match rng.below(4) {
+            0 => format!("{r}{s}5{s}{n}", r = role, s = sep, n = pk(rng, &PALETTE)),
+            1 => format!("{r}{s}2{s}{a}{s}{b}{s}{c}", r = role, s = sep, a = pk(rng, &CHANNELS), b = pk(rng, &CHANNELS), c = pk(rng, &CHANNELS)),
+            2 => format!("{r}:2:{x}:{a}:{b}:{c}", r = role, x = pk(rng, &CHANNELS), a = pk(rng, &CHANNELS), b = pk(rng, &CHANNELS), c = pk(rng, &CHANNELS)),
+            _ => format!("{r}{s}{k}", r = role, s = sep, k = pk(rng, &[0, 1, 2, 3, 5, 6])),
+        }
+    };
+    let k = if which == 1 { rng.below(3) } else { rng.below(9) };
+    match k {
+        0 => (format!("\x1b[{}m", sgr_colour(rng)).into_bytes(), "b.sgrcolour"),
+        1 => (format!("\x1b[{};{};{}m", pk(rng, &SGR_CODES), sgr_colour(rng), pk(rng, &SGR_CODES)).into_bytes(), "b.sgrcolour"),
+        2 => (format!("\x1b[{}{}{}m", pk(rng, &SGR_CODES), if rng.chance(1, 2) { ";" } else { ":" }, pk(rng, &SGR_CODES)).into_bytes(), "b.sgr"),
+        3 => (format!("\x1b[{}u", pk(rng, &KEY_CODES)).into_bytes(), "b.kbd"),
+        4 => (format!("\x1b[{};{}{}u", pk(rng, &KEY_CODES), pk(rng, &KEY_MODS), if rng.chance(1, 4) { format!(":{}", rng.below(4)) } else { String::new() }).into_bytes(), "b.kbd"),
+        5 => (format!("\x1b[<{};{};{}{}", pk(rng, &MOUSE_CODES), pk(rng, &COORDS), pk(rng, &COORDS), if rng.chance(1, 2) { 'M' } else { 'm' }).into_bytes(), "b.mouse"),
+        6 => (format!("\x1b[{};{}R", pk(rng, &COORDS), pk(rng, &COORDS)).into_bytes(), "b.cpr"),
+        7 => (format!("\x1bP1$r{}m\x1b\\", sgr_colour(rng)).into_bytes(), "b.decrpss"),
+        _ => (format!("\x1b]4;{};rgb:{:x}/{:x}/{:x}\x07", pk(rng, &PALETTE), rng.below(65536), rng.below(256), rng.below(16)).into_bytes(), "b.osc"),
     }
 }
 
@@ -584,6 +671,32 @@ fn trivial_and(rng: &mut Rng, n: usize) -> Vec<Vec<usize>> {
     parts
 }
 
+/// every way of cutting n bytes into non-empty reads (2^(n-1)), plus a few with empty reads
+fn all_splits(n: usize) -> Vec<Vec<usize>> {
+    if n == 0 {
+        return vec![vec![0]];
+    }
+    let mut out = vec![];
+    for mask in 0..(1u32 << (n - 1)) {
+        let mut p = vec![];
+        let mut run = 1;
+        for i in 0..n - 1 {
+            if mask & (1 << i) != 0 {
+                p.push(run);
+                run = 1;
+            } else {
+                run += 1;
+            }
+        }
+        p.push(run);
+        out.push(p);
+    }
+    out.push(vec![0, n]);
+    out.push(vec![n, 0]);
+    out.push(vec![1, 0, 0, n - 1]);
+    out
+}
+
 fn all_single_cuts(n: usize) -> Vec<Vec<usize>> {
     let mut parts = vec![vec![n], vec![1; n]];
     for i in 1..n {
@@ -616,6 +729,28 @@ pub fn generate(rng: &mut Rng, n: usize, tier: &str) -> Vec<Value> {
             v.push(json!({"kind":"ev","which":0,"class":"csi2","input":[27, 91, *a, *b],"parts":[[4],[2,2]]}));
         }
     }
+    // the same sweeps for the command decoder
+    for b in 0..=255u8 {
+        v.push(json!({"kind":"ev","which":1,"class":"len1","input":[b],"parts":[[1]]}));
+    }
+    for a in [27u8, 0xc2, 0xe0, 0xed, 0xf4, 0x80] {
+        for b in second.iter() {
+            v.push(json!({"kind":"ev","which":1,"class":"len2","input":[a, *b],"parts":[[2],[1,1]]}));
+        }
+    }
+    for a in csi.iter().step_by(if thorough { 1 } else { 2 }) {
+        for b in csi.iter() {
+            v.push(json!({"kind":"ev","which":1,"class":"csi2","input":[27, 91, *a, *b],"parts":[[4],[2,2],[1,3]]}));
+        }
+    }
+    // field boundaries: every template several times, single sequence, every single cut;
+    // short ones under every way of splitting them into reads
+    for i in 0..(if thorough { 4000 } else { 420 }) {
+        let which = if i % 4 == 3 { 1 } else { 0 };
+        let (s, class) = boundary_piece(rng, which);
+        let parts = if s.len() <= (if thorough { 11 } else { 9 }) { all_splits(s.len()) } else { all_single_cuts(s.len()) };
+        v.push(json!({"kind":"ev","which":which,"class":class,"input":jbytes(&s),"parts":parts}));
+    }
     // UTF-8 boundary set through all three decoders
     for _ in 0..60 {
         let s = utf8_boundary(rng);
@@ -632,28 +767,29 @@ pub fn generate(rng: &mut Rng, n: usize, tier: &str) -> Vec<Value> {
                 for _ in 0..1 + rng.below(4) {
                     s.extend(utf8_boundary(rng));
                 }
-                s.truncate(24);
+                s.truncate(48);
                 v.push(json!({"kind":"u8","class":"utf8","input":jbytes(&s),"parts":trivial_and(rng, s.len())}));
             }
             1 | 2 => {
                 // a single protocol-shaped sequence with extreme parameters
                 let which = if rng.chance(1, 5) { 1 } else { 0 };
                 let (s, class) = piece(rng, which);
-                v.push(json!({"kind":"ev","which":which,"class":class,"input":jbytes(&s),"parts":trivial_and(rng, s.len())}));
+                let parts = if s.len() <= 8 { all_splits(s.len()) } else if s.len() <= 48 { all_single_cuts(s.len()) } else { trivial_and(rng, s.len()) };
+                v.push(json!({"kind":"ev","which":which,"class":class,"input":jbytes(&s),"parts":parts}));
             }
             _ => {
                 // streams: sequences with garbage interleaved
                 let which = if rng.chance(1, 5) { 1 } else { 0 };
                 let mut s = vec![];
                 for _ in 0..1 + rng.below(5) {
-                    let (p, _) = piece(rng, which);
+                    let (p, _) = if rng.chance(1, 3) { boundary_piece(rng, which) } else { piece(rng, which) };
                     s.extend(p);
                     if rng.chance(1, 4) {
                         s.push(rng.byte());
                     }
                 }
-                if s.len() > 120 {
-                    s.truncate(120);
+                if s.len() > 240 {
+                    s.truncate(240);
                 }
                 v.push(json!({"kind":"ev","which":which,"class":"stream","input":jbytes(&s),"parts":trivial_and(rng, s.len())}));
             }
